@@ -9,7 +9,7 @@ from darr.readcodearray import readcodefunc
 from implutil import snapshot, dtype_info
 import langs
 
-MODES = ('rel', 'base', 'abs')
+MODES = ('rel', 'base', 'abs', 'both')      # both: abspath=True AND a basepath (abspath wins)
 
 
 def distinct_values(dtype, n, rng):
@@ -150,6 +150,15 @@ def _readcode(case, d):
         del a
         os.chdir(d)
         a = darr.Array(os.path.join('sub', 'arr.darr'), accessmode='r+')
+    elif case['seed'] % 3 == 1:
+        # ... or through a symbolic link followed by '..' (resolving is not the same as normalising)
+        del a
+        os.makedirs(os.path.join(sub, 'deep', 'er'))
+        os.symlink(os.path.join(sub, 'deep', 'er'), os.path.join(d, 'cur'))
+        os.rename(path, os.path.join(sub, 'deep', 'arr.darr'))
+        path = os.path.join(sub, 'deep', 'arr.darr')
+        os.makedirs(os.path.join(d, 'arr.darr'))         # what a lexical normalisation would point at
+        a = darr.Array(os.path.join(d, 'cur', '..', 'arr.darr'), accessmode='r+')
     nt, bo = dtype_info(a.dtype)
     out = dict(numtype=nt, byteorder=bo, shape=list(a.shape), absdir=os.path.realpath(path),
                languages=list(a.readcodelanguages), all_languages=sorted(readcodefunc.keys()))
@@ -157,7 +166,8 @@ def _readcode(case, d):
     for lang in sorted(readcodefunc.keys()):
         codes[lang] = {}
         for mode in MODES:
-            kw = dict(rel={}, base=dict(basepath='sub/arr.darr'), abs=dict(abspath=True))[mode]
+            kw = dict(rel={}, base=dict(basepath='sub/arr.darr'), abs=dict(abspath=True),
+                      both=dict(abspath=True, basepath='zzz'))[mode]
             try:
                 codes[lang][mode] = a.readcode(lang, **kw)
             except Exception as e:
@@ -173,7 +183,9 @@ def _readcode(case, d):
                 if code is None or code.startswith('!!raised'):
                     fails.append(dict(lang=lang, mode=mode, kind='listed-but-withheld', detail=str(code)[:200]))
                     continue
-                cwd = dict(rel=path, base=d, abs='/')[mode]     # absolute paths must work from anywhere
+                if mode == 'base' and not os.path.isdir(os.path.join(d, 'sub', 'arr.darr')):
+                    continue                 # the array was moved for the symlink variant: basepath text only
+                cwd = dict(rel=path, base=d, abs='/', both='/')[mode]     # absolute paths must work from anywhere
                 kind, detail = evaluate(lang, code, cwd, path, stored)
                 ran += 1
                 if kind:
@@ -183,6 +195,26 @@ def _readcode(case, d):
                 fails.append(dict(lang=lang, mode='rel', kind='offered-but-not-listed', detail=''))
     if snapshot(path) != before:
         fails.append(dict(lang='*', mode='*', kind='changed-files', detail='array directory changed by running the code'))
+    # the length changes through ANOTHER handle (truncate_array by path opens its own): the code this
+    # handle gives must be the code for the array as it is now
+    if case.get('oracle', True) and shape[0] > 1:
+        try:
+            darr.truncate_array(path, shape[0] - 1)
+            fresh = darr.Array(path)
+            for lang in out['languages']:
+                c1, c2 = a.readcode(lang), fresh.readcode(lang)
+                ran += 1
+                if c1 != c2:
+                    fails.append(dict(lang=lang, mode='rel', kind='stale-code-after-change-through-another-handle',
+                                      detail='differs from the code a fresh handle gives', code=c1))
+            for lang in ('numpymemmap', 'python', 'R', 'matlab'):
+                if lang in out['languages']:
+                    kind, detail = evaluate(lang, a.readcode(lang), path, path, stored[:shape[0] - 1])
+                    ran += 1
+                    if kind:
+                        fails.append(dict(lang=lang, mode='rel', kind=kind + '-after-truncate', detail=detail))
+        except Exception as e:
+            fails.append(dict(lang='*', mode='*', kind='run-error', detail=f'after truncate by path: {type(e).__name__}: {e}'[:200]))
     out['oracle_ran'] = ran
     out['oracle_fails'] = fails
     return out
